@@ -1,6 +1,7 @@
 """C13 - RepeatBand back-off."""
 from props.base import *
 import subprocess
+NEEDS_VIEW = True     # reads the public fields of the automata objects
 COQ_TARGETS = ['props/Properties_C13.vo']
 EXPECT_KEYS = {'ni'}
 RULE = ('band_update_stats on boundary-dense r (0, 1, 14, 15, 9769, 9770, 65535, 65536, 2^31, 2^32-1, powers of two +-1, random) x begun x prior counts, '
